@@ -55,6 +55,18 @@ CHECKS = {
                 text='Buffered::next pops first and refills with exactly 0..max_len() pulls (each pushed) only when empty; next_frames refills iff len()==0 and hands out the same ring buffer; '
                      'BufferedFrames::next is pop; is_exhausted = empty AND source exhausted. With FIFO semantics (C06) the stream is prefill ++ source (paper).',
                 note=TB + '; ring buffer treated as an opaque FIFO (C06).'),
+    'C06': dict(level='proof', ref='DESIGN.md §5 C06, Appendix C.1',
+                technique='path summaries over MIR + small polyhedra (Fourier-Motzkin entailment with affine-modulo forms): per-operation refinement proof of the ideal queue',
+                text='For every method of Bounded / Fixed and every acyclic path, for ALL (start, len, cap, index): every unchecked or checked element access, split and range is in '
+                     'bounds, every modulo has a non-zero divisor, the representation invariant is established by each safe constructor and preserved, and the physical slot / post-state of '
+                     'push, pop, get, get_mut, slices, iterators, set_first equal the ideal-queue spec as affine-modulo forms; wrappers (Index, Extend, Drain, From) forward. '
+                     'The forward simulation implies the statement over histories (Appendix C.1).',
+                note=TB + '; core slice/iterator primitives as documented; user Slice impls are length-stable; index arithmetic does not overflow usize.'),
+    'C13': dict(level='other', ref='DESIGN.md §5 C13, Appendix C.3',
+                technique='path summaries over MIR: necessary structural conditions (pairing, provenance, comparison operator, loop bodies) of the bus operations',
+                text='Decides the necessary conditions of send / next_frame / pending_frames / drop_output / Drop / Output::{next,is_exhausted} on every path (see evidence explanation). '
+                     'The history-level statement (gap-free streams, backlog == slowest lag) is NOT decided; it follows from these conditions by the paper invariant of Appendix C.3.',
+                note=TB + '; VecDeque / BTreeMap as documented; no hook is needed or added.'),
 }
 
 NOT_YET = 'check not implemented yet in this revision of /verif (see DESIGN.md §10 build order)'
